@@ -233,6 +233,23 @@ def run(tier):
             if not mm or mm["sizeof"] != real:
                 mism += 1
                 ck.violation("wrong-sizeof", "%s evaluates to %s at run time, the layout model (LLVM allocation size) says %s" % (q, real, mm.get("sizeof")), "source:\n%s\nquery %s = %s\nmodel: %s" % (src, q, real, m))
+    # the length of a string literal is its number of BYTES, whichever way it is asked for (by name, through a view
+    # parameter, through a variable), also when the bytes are not UTF-8
+    slits = [("\\xA350", 3), ("\\xFF\\xFE", 2), ("a\\x80b\\xC3", 4), ("\\xC3\\xA9", 2), ("\\u{e9}", 2), ("\\u{20ac}x", 4), ("\\0\\xF0\\x9F", 3), ("plain", 5), ("", 0), ("\\xE2\\x82", 2)]
+    ssrc = "fn count(t: []char8) -> usize\n{\n\treturn: |t|\n}\nfn main() -> u8\n{\n"
+    for j_, (lit, _) in enumerate(slits):
+        ssrc += "\tvar s%d: []char8 = \"%s\";\n\tvar a%d = \"%s\";\n\tprint!(count(\"%s\"), \" \", |s%d|, \" \", count(s%d), \" \", |a%d|, \" \", count(a%d), \"\\n\");\n" % (j_, lit, j_, lit, lit, j_, j_, j_, j_)
+    ssrc += "\treturn: 0\n}\n"
+    sres = C.run_harness("exec", [("s", ssrc)], ck.work + "/strlen", timeout=600).get("s", ["missing"])
+    if not sres[0].startswith("ok"):
+        mism += 1; ck.violation(C.failure_key(sres[0]) if not sres[0].startswith("err codes=") else "valid-rejected:string-lengths", "the string-length program is not compiled: " + sres[0][:200], ssrc)
+    else:
+        sout = C.unesc(sres[1].split(" out=", 1)[1].split(" stderr=")[0]).decode(errors="replace").strip().split("\n") if " out=" in sres[1] else []
+        for j_, (lit, n_) in enumerate(slits):
+            want = " ".join([str(n_)] * 5)
+            if j_ >= len(sout) or sout[j_] != want:
+                mism += 1
+                ck.violation("wrong-length:string-literal", "the literal \"%s\" has %d bytes; asked for by name, by view, through a variable it gives `%s`" % (lit, n_, sout[j_] if j_ < len(sout) else "?"), ssrc)
     # the 32-bit target: sizes of types that contain addresses are those of ITS data layout (p:32:32, usize = i32);
     # wasm cannot be run here, so the folded constants are read off the emitted IR (`ret i32 N`)
     wq = [("&u8", 4), ("[3]&u8", 12), ("Node", 8), ("Mixed", 16), ("[2]Node", 16), ("usize", 4), ("[5]usize", 20), ("&&i64", 4), ("Deep", 24), ("u64", 8), ("[3]u16", 6)]
